@@ -533,7 +533,8 @@ class MacroProgram(ElementProgram):
         except KeyError:
             TARGET = skip
         else:
-            TARGET = lambda node: nodes.Define(  # noqa:  E731 do not assign a lambda expression, use a def
+            # (``clause`` is assigned again below, e.g. by i18n:name)
+            TARGET = lambda node, clause=clause: nodes.Define(  # noqa:  E731 do not assign a lambda expression, use a def
                 [nodes.Alias(["default"], "target_language")],
                 nodes.Target(clause, node)
             )
